@@ -9,7 +9,7 @@ design.d/C06.md.  After EVERY generated command the harness inserts probes (`=`,
 `%p` bracketed by `1kz`/`kz` ... `'z` so that the current line survives the print) and `ec` markers,
 so buffer, printed output, current line and marks are observed after each step; final `w`.
 """
-import json, os, re, glob as _glob
+import json, os, re, copy, glob as _glob
 import vlib
 
 GROUP = 'ex'
@@ -54,6 +54,10 @@ def r_addr(a):
 def r_cmd(c):
     """-> list of script lines"""
     k = c['cmd']
+    if k == 'R':
+        # reveal numbered register n without disturbing anything: put it on a scratch tail of the buffer together
+        # with a sentinel line (one command line = one undo group, also when the put is rejected), print, undo
+        return ['$pu %d|$a' % c['n'], '~%d' % c['n'], '.', '%p', 'u']
     s = r_addr(c.get('addr', [])) + c.get('spell', k)
     if k in ('d', 'y', 'pu', '@'):
         s += (' ' + c['reg']) if c.get('reg') else ''
@@ -64,7 +68,7 @@ def r_cmd(c):
     elif k == '!':
         s += c['filter']
     elif k == 'rs':
-        s += ' ' + c['reg']
+        s += (' ' + c['reg']) if c.get('reg') else ''
     elif k == 'ec':
         s += ' ' + c['text']
     out = [s]
@@ -90,13 +94,24 @@ def r_line(step):
     return ['|'.join(heads)] + tail
 
 
-def probes(k):
+NUMREGS = '123456789'
+
+
+def probes(k, regprobe=False):
+    """regprobe: additionally reveal the numbered registers 1..9 (after the current line is parked in mark z and
+    before the `%p` that shows the buffer, so the scratch lines and the moved current line are gone again)"""
     p = [[{'cmd': 'ec', 'text': '@B@'}], [{'cmd': '='}], [{'cmd': 'ec', 'text': '@C@'}]]
-    for m in MARKS:
-        p += [[{'cmd': '=', 'addr': [({'base': ('m', m), 'offs': []}, None)]}], [{'cmd': 'ec', 'text': '@,@'}]]
+    for i, m in enumerate(MARKS):
+        p += [[{'cmd': '=', 'addr': [({'base': ('m', m), 'offs': []}, None)]}]]
+        if not regprobe or i + 1 < len(MARKS):
+            p += [[{'cmd': 'ec', 'text': '@,@'}]]
     p += [[{'cmd': 'k', 'mark': 'z', 'addr': [({'base': ('n', 1), 'offs': []}, None)]}],
-          [{'cmd': 'k', 'mark': 'z'}],
-          [{'cmd': 'p', 'addr': '%'}], [{'cmd': 'ec', 'text': '@D@'}],
+          [{'cmd': 'k', 'mark': 'z'}]]
+    if regprobe:
+        for d in NUMREGS:
+            p += [[{'cmd': 'ec', 'text': '@R%s@' % d}], [{'cmd': 'R', 'n': int(d)}]]
+        p += [[{'cmd': 'ec', 'text': '@,@'}]]
+    p += [[{'cmd': 'p', 'addr': '%'}], [{'cmd': 'ec', 'text': '@D@'}],
           [{'cmd': '', 'addr': [({'base': ('m', 'z'), 'offs': []}, None)]}],
           [{'cmd': 'ec', 'text': '@A%d@' % (k + 1)}]]
     return p
@@ -109,7 +124,7 @@ def build_script(case):
     lines.append('ec @A0@')
     for k, step in enumerate(case['steps']):
         lines += r_line(step)
-        for p in probes(k):
+        for p in probes(k, case.get('regprobe', False)):
             lines += r_line(p)
     lines += ['w', 'q!']
     return ('\n'.join(lines) + '\n').encode()
@@ -231,13 +246,35 @@ class RefEd:
     def clamp(self, v):
         return max(0, min(len(self.lines) - 1, v))
 
-    def put_reg(self, r, texts):
+    def put_reg(self, r, texts, cmds=None):
+        """a line-wise store (every store of ex is line-wise).  Into the unnamed or a lettered register it is also
+        pushed on the numbered registers: register 1 becomes the new text and every register i+1 takes what
+        register i held BEFORE the store (all at once; register 9's old text is dropped; an unset register hands
+        nothing on, so its successor keeps what it has).  A capital letter appends to the lettered register, but
+        register 1 receives the new text alone.  A store addressed to a digit (or any other name) sets just it."""
         r = r or '"'
+        texts = list(texts)
+        if r == '"' or r.isalpha():
+            old = dict((d, (self.regs.get(d), self.cmdregs.get(d))) for d in NUMREGS)
+            for i in range(2, 10):
+                t, cm = old[str(i - 1)]
+                if t is not None:
+                    self._set_reg(str(i), t, cm)
+            self._set_reg('1', texts, cmds)
         if r.isupper():
-            self.regs[r.lower()] = self.regs.get(r.lower(), []) + list(texts)
+            low = r.lower()
+            had = self.regs.get(low)
+            oldc = self.cmdregs.get(low) if had else []        # the commands the old text stands for (None: plain text)
+            self._set_reg(low, (had or []) + texts, (oldc + list(cmds)) if (oldc is not None and cmds is not None) else None)
         else:
-            self.regs[r] = list(texts)
-        self.cmdregs.pop(r.lower(), None)
+            self._set_reg(r, texts, cmds)
+
+    def _set_reg(self, r, texts, cmds):
+        self.regs[r] = list(texts)
+        if cmds is None:
+            self.cmdregs.pop(r, None)
+        else:
+            self.cmdregs[r] = list(cmds)
 
     def run(self, c):
         """one command; a rejected command changes nothing (but see resolve for `;`)"""
@@ -248,10 +285,16 @@ class RefEd:
                 return True
             if k == 'rs':
                 if c.get('cmds') is not None:
-                    self.put_reg(c['reg'], ['|'.join(r_cmd(x)[0] for x in ln) for ln in c['cmds']])
-                    self.cmdregs[c['reg']] = c['cmds']
+                    self.put_reg(c.get('reg'), ['|'.join(r_cmd(x)[0] for x in ln) for ln in c['cmds']], c['cmds'])
                 else:
-                    self.put_reg(c['reg'], c['text'])
+                    self.put_reg(c.get('reg'), c['text'])
+                return True
+            if k == 'R':        # the register probe: buffer + text of register n + sentinel are printed, nothing changes
+                for l in self.lines:
+                    self.out.append(('L', l[1]))
+                for t in self.regs.get(str(c['n'])) or []:
+                    self.out.append(('L', t))
+                self.out.append(('L', '~%d' % c['n']))
                 return True
             n = len(self.lines)
             if k == 'pu':
@@ -312,7 +355,7 @@ class RefEd:
             elif k == '@':
                 self.cur = b
                 r = c.get('reg') or '"'
-                for ln in self.cmdregs[r]:
+                for ln in list(self.cmdregs[r]):     # the commands may replace the register they are read from
                     for x in ln:
                         self.run(x)
             else:
@@ -328,7 +371,7 @@ class RefEd:
 # ---------------------------------------------------------------------------------------------
 # parsing what the implementation / the model printed
 
-MARK_RE = re.compile(rb'@(A\d+|B|C|D|,)@')
+MARK_RE = re.compile(rb'@(A\d+|B|C|D|,|R[1-9])@')
 
 
 def clean(tok):
@@ -338,10 +381,12 @@ def clean(tok):
 
 
 REGIONS = ['B', 'C'] + [','] * len(MARKS) + ['D']
+REGIONS_R = ['B', 'C'] + [','] * (len(MARKS) - 1) + ['R' + d for d in NUMREGS] + [',', 'D']
 
 
 def parse_impl(out):
-    """stdout of the editor -> list of per-step observations {out, cur, marks, buf}; None if the markers are damaged"""
+    """stdout of the editor -> list of per-step observations {out, cur, marks, buf[, regs]}; None if the markers are damaged.
+    regs (only with the register probes) = for each of the registers 1..9 the `%p` of buffer + register text + sentinel"""
     i = out.find(b'@A0@')
     if i < 0:
         return None
@@ -349,13 +394,25 @@ def parse_impl(out):
     seq = [(toks[j].decode(), toks[j + 1]) for j in range(1, len(toks) - 1, 2)]
     steps = []
     k = 0
-    w = 1 + len(REGIONS)
-    while k + w <= len(seq):
+    nm = len(MARKS)
+    while k < len(seq):
+        w = 1
+        while k + w < len(seq) and not seq[k + w][0].startswith('A'):
+            w += 1
+        if k + w >= len(seq):
+            break               # the last group is complete only when the next A marker was printed
         grp = seq[k:k + w]
-        if grp[0][0] != 'A%d' % len(steps) or [g[0] for g in grp[1:]] != REGIONS:
+        names = [g[0] for g in grp[1:]]
+        if grp[0][0] != 'A%d' % len(steps) or names not in (REGIONS, REGIONS_R):
             return None
         texts = [clean(g[1]) for g in grp]
-        steps.append({'out': texts[0], 'cur': texts[1], 'marks': texts[2:2 + len(MARKS)], 'buf': texts[2 + len(MARKS)]})
+        st = {'out': texts[0], 'cur': texts[1], 'marks': texts[2:2 + nm]}
+        if names == REGIONS_R:
+            st['regs'] = texts[2 + nm:2 + nm + len(NUMREGS)]
+            st['buf'] = texts[2 + nm + len(NUMREGS)]
+        else:
+            st['buf'] = texts[2 + nm]
+        steps.append(st)
         k += w
     return steps
 
@@ -436,7 +493,7 @@ def gen_simple(rng, ed, allow_filter=True):
     if t < 6:
         return {'cmd': 'y', 'addr': a, 'reg': reg}
     if t < 9:
-        return {'cmd': 'pu', 'addr': a, 'reg': rng.choice([None, None, 'a', 'b', 'q'])}
+        return {'cmd': 'pu', 'addr': a, 'reg': rng.choice([None, None, 'a', 'b', 'q', '1', '2', '3'])}
     if t < 12:
         return {'cmd': 'p', 'addr': a}
     if t < 14:
@@ -493,10 +550,114 @@ def gen_case(rng, quick):
     return case
 
 
-def run_ref_step(ed, step, k):
+# -- the register-history stream: numbered registers 1..9 ---------------------------------------
+# Every line-wise store into the unnamed or a lettered register (y, d, rs) is pushed on the numbered registers; put and @
+# from register N must use the N-th newest store, and are rejected while fewer than N stores happened.  The cases are
+# histories of 0..12 stores with distinct texts, interleaved with `pu N` / `@N` aimed at N = number of stores so far
+# (the oldest), that number + 1 (the first unset one: must be rejected), 1, 2, 3, 9 and random N; stores addressed
+# directly to a digit and appends with capital letters are mixed in.  The registers 1..9 are revealed after every step.
+
+def n_addr(v):
+    return [({'base': ('n', v), 'offs': []}, None)]
+
+
+def gen_store(rng, ed, uniq, notext=False):
+    """one line-wise store into a register; uniq = counter making the stored texts pairwise distinct;
+    notext: no command with a text block (it is followed by another command on the same line)"""
+    n = len(ed.lines)
+    reg = rng.choice([None, None, None, 'a', 'b', 'A', 'B', 'c'])
+    if rng.chance(1, 12):
+        reg = rng.choice(NUMREGS)                  # addressed to a digit: sets only that register, no push
+    t = rng.below(6 if notext else 10)
+    n = max(n, 1) if notext else n      # (on the empty buffer y and d are rejected: nothing is stored)
+    if (t < 4 and n >= 1) or (notext and n < 2):
+        lo = rng.range(1, n)
+        a = n_addr(lo) if rng.chance(3, 4) else [({'base': ('n', lo), 'offs': []}, ','), ({'base': ('n', rng.range(lo, n)), 'offs': []}, None)]
+        return {'cmd': 'y', 'addr': a, 'reg': reg}
+    if t < 6 and n >= 2:
+        return {'cmd': 'd', 'addr': n_addr(rng.range(1, n)), 'reg': reg}
+    if t < 8:
+        cmds = []
+        for _ in range(rng.range(1, 2)):
+            v = rng.range(1, max(1, n))
+            cmds.append([rng.choice([{'cmd': 'p', 'addr': n_addr(v)}, {'cmd': '=', 'addr': n_addr(v)},
+                                     {'cmd': 'k', 'addr': n_addr(v), 'mark': rng.choice(MARKS)},
+                                     {'cmd': 'y', 'addr': n_addr(v), 'reg': rng.choice([None, 'a'])},
+                                     {'cmd': 'pu', 'addr': n_addr(v), 'reg': rng.choice(['1', '2', '3'])}])])
+        return {'cmd': 'rs', 'reg': reg if reg not in ('A', 'B') or rng.chance(1, 2) else 'x', 'cmds': cmds}
+    return {'cmd': 'rs', 'reg': reg, 'text': ['%s.%d' % (rng.choice(WORDS), uniq + j) for j in range(rng.choice([1, 1, 2]))]}
+
+
+def gen_reg_use(rng, ed):
+    """put / @ from a numbered register chosen relative to how many of them are set"""
+    n = len(ed.lines)
+    top = max([int(d) for d in NUMREGS if ed.regs.get(d) is not None] or [0])
+    cand = [top, top, top + 1, top + 1, top - 1, 1, 2, 3, 3, 4, 9, rng.range(1, 9), rng.range(1, 9)]
+    cand = [c for c in cand if 1 <= c <= 9]
+    N = str(rng.choice(cand))
+    a = rng.choice([[], [], n_addr(0), n_addr(rng.range(0, n + 1)), [({'base': ('$',), 'offs': []}, None)], gen_addr(rng, ed)])
+    if rng.chance(1, 3):
+        # @ only from registers whose text the reference can run: set by `rs` with commands, or unset (must be rejected)
+        cmdset = [d for d in NUMREGS if d in ed.cmdregs]
+        unset = [d for d in NUMREGS if ed.regs.get(d) is None]
+        R = None
+        if cmdset and (not unset or rng.chance(3, 4)):
+            R = rng.choice(cmdset + [max(cmdset)] * 2)
+        elif unset:
+            R = rng.choice(unset[:2] + [rng.choice(unset)])
+        if R is not None:
+            if a == [] or rng.chance(1, 2):
+                a = n_addr(rng.range(1, max(1, n)))
+            return {'cmd': '@', 'addr': a, 'reg': R}
+    return {'cmd': 'pu', 'addr': a, 'reg': N}
+
+
+def gen_reg_case(rng, quick):
+    n = rng.choice([0, 1, 2, 3, 4, 4, 5, 6])
+    flines = ['%s%d' % (WORDS[(i * 5 + 3) % len(WORDS)], i) for i in range(n)]
+    files = {'g': ['gg0'], 'h': ['hh']}
+    case = {'file': flines, 'files': files, 'wa': True, 'steps': [], 'regprobe': True, 'stream': 'reghist'}
+    ed = RefEd(flines, files)
+    ed.lenient = True
+    uniq = [100]
+
+    def add(step):
+        case['steps'].append(step)
+        run_ref_step(ed, step, len(case['steps']) - 1, True)
+
+    def store(notext=False):
+        uniq[0] += 3
+        return gen_store(rng, ed, uniq[0], notext)
+    shape = rng.below(8)
+    if shape < 2:
+        # a burst of stores (two or three per line) up to and beyond nine, then uses
+        m = rng.choice([2, 3, 4, 8, 9, 10, 11])
+        while m > 0:
+            j = min(m, rng.range(1, 3))
+            add([store(i + 1 < j) for i in range(j)])
+            m -= j
+        for _ in range(rng.range(2, 4)):
+            add([gen_reg_use(rng, ed)])
+    for _ in range(rng.range(4, 9 if quick else 14)):
+        t = rng.below(20)
+        if t < 9:
+            add([store()])
+        elif t < 17:
+            add([gen_reg_use(rng, ed)])
+        elif t < 18:
+            st = store(True)
+            ed2 = copy.deepcopy(ed)
+            ed2.run(st)
+            add([st, gen_reg_use(rng, ed2)])
+        else:
+            add(gen_step(rng, ed))
+    return case
+
+
+def run_ref_step(ed, step, k, regprobe=False):
     for c in step:
         ed.run(c)
-    for p in probes(k):
+    for p in probes(k, regprobe):
         for c in p:
             ed.run(c)
 
@@ -545,9 +706,13 @@ def oracle(case, obs):
                     ed.marks[m] = None
         if ed.marks.get('z') is UNK:
             ed.marks['z'] = None        # re-set by 1kz unless the buffer is empty, and then no mark designates a line
-        g = ref_regions(ed, probes(k))
-        # g[0] = after the step's output (empty), g[1] = `=`, g[2..] = marks, then %p, then 'z
-        want = {'cur': g[1], 'marks': g[2:2 + len(MARKS)], 'buf': g[2 + len(MARKS)]}
+        rp = 'regs' in o
+        g = ref_regions(ed, probes(k, rp))
+        # g[0] = after the step's output (empty), g[1] = `=`, g[2..] = marks, [registers 1..9,] then %p, then 'z
+        nm = len(MARKS)
+        want = {'cur': g[1], 'marks': g[2:2 + nm], 'buf': g[2 + nm + (len(NUMREGS) if rp else 0)]}
+        if rp != bool(case.get('regprobe', False)):
+            return {'what': 'the probe markers of step %d are not the ones the script asked for' % k, 'step': k}
         if o['buf'] != want['buf']:
             return {'what': 'buffer after step %d differs from the reference (only the addressed range may change; every other line keeps bytes and order)' % k,
                     'step': k, 'expected': want['buf'], 'observed': o['buf'], 'before': before}
@@ -557,6 +722,15 @@ def oracle(case, obs):
         if o['marks'] != want['marks']:
             return {'what': 'marks after step %d: a mark must keep designating the same line while lines are added or removed elsewhere' % k,
                     'step': k, 'expected': want['marks'], 'observed': o['marks'], 'before': before}
+        if rp:
+            wr = g[2 + nm:2 + nm + len(NUMREGS)]
+            for i, d in enumerate(NUMREGS):
+                if o['regs'][i] != wr[i]:
+                    nb = len(want['buf'])
+                    return {'what': 'numbered register %s after step %d (shown by `$pu %s` on a scratch tail): it must hold the %s-newest line-wise '
+                                    'store into the unnamed/lettered registers, or be unset (put rejected, buffer unchanged) when there were fewer' % (d, k, d, d),
+                            'step': k, 'register': d, 'expected': wr[i][nb:-1], 'observed': o['regs'][i][nb:-1] if o['regs'][i][:nb] == want['buf'] else o['regs'][i],
+                            'before': before}
     return None
 
 
@@ -568,8 +742,11 @@ def classify(case, bad):
 # ---------------------------------------------------------------------------------------------
 
 def case_input(case):
-    return {'file': case['file'], 'files': case['files'], 'wa': case.get('wa', True), 'steps': case['steps'],
-            'script': build_script(case).decode('latin-1')}
+    d = {'file': case['file'], 'files': case['files'], 'wa': case.get('wa', True), 'steps': case['steps'],
+         'script': build_script(case).decode('latin-1')}
+    if case.get('regprobe'):
+        d['regprobe'] = True
+    return d
 
 
 def run_impl(vi, case, timeout=20):
@@ -720,6 +897,9 @@ def run(ctx):
         nrand = 1500 if ctx.quick else 40000
         for i in range(nrand):
             cases.append(gen_case(rng.fork('case%d' % i), ctx.quick))
+        nreg = 450 if ctx.quick else 9000
+        for i in range(nreg):
+            cases.append(gen_reg_case(rng.fork('reg%d' % i), ctx.quick))
         ex = exhaustive_cases(2 if ctx.quick else 4)
         if ctx.quick:
             r2 = rng.fork('exh')
@@ -742,6 +922,12 @@ def run(ctx):
         for kk in kinds:
             res.count('cmd ' + (kk or 'null'))
         res.count('buffer lines %d' % len(case['file']))
+        if case.get('regprobe'):
+            res.count('register-history case (registers 1..9 revealed after every command)')
+        for st in case['steps']:
+            for x in st:
+                if x['cmd'] in ('pu', '@') and (x.get('reg') or '') in NUMREGS and x.get('reg'):
+                    res.count('%s from a numbered register' % x['cmd'])
         if any(x['cmd'] in ('a', 'i', 'c', 'd', 'pu', 'r', '!') and x.get('addr') for st in case['steps'] for x in st):
             res.nontriv(script)
         if kind == 'ok':
